@@ -18,8 +18,48 @@ from fractions import Fraction
 import numpy as np
 
 from harness.core import f2b, b2f, flist, ilist, parse_flist, parse_ilist, REPO
+from harness import c15_r7_fixtures as R7
 
-MODEL_MODULES = ['SkyllhModel.Model.Grid', 'SkyllhModel.Model.GridObj', 'SkyllhModel.Generated.C15']
+MODEL_MODULES = ['SkyllhModel.Model.Grid', 'SkyllhModel.Model.GridObj', 'SkyllhModel.Model.GridR7', 'SkyllhModel.Generated.C15']
+
+# which Python callables have an executable Lean counterpart that the c15_* theorems are about AND that run(ctx) compares with the
+# real callable on every run (harness/core.py::model_map_report checks the keys against the current source)
+_P, _I = 'skyllh/core/parameters.py::', 'skyllh/core/interpolate.py::'
+MODEL_MAP = {
+    _P + 'ParameterGrid.__init__': ['Grid.mkGrid', 'Grid.mkGridChecked', 'Grid.mkGridAuto', 'Grid.decimalsAuto', 'Grid.PGObj.new'],
+    _P + 'ParameterGrid.from_range': ['Grid.fromRangeArr', 'Grid.arange', 'Grid.arangeLen'],
+    _P + 'ParameterGrid._calc_floatD_and_intD': ['Grid.floatD', 'Grid.intD'],
+    _P + 'ParameterGrid.round_to_nearest_grid_point': ['Grid.roundNearest', 'Grid.kNearest'],
+    _P + 'ParameterGrid.round_to_lower_grid_point': ['Grid.roundLower', 'Grid.kLower'],
+    _P + 'ParameterGrid.round_to_upper_grid_point': ['Grid.roundUpper', 'Grid.kUpper'],
+    _P + 'ParameterGrid.grid': ['Grid.buildGrid'],
+    _P + 'ParameterGrid.lower_bound': ['Grid.PGObj.step'],
+    _P + 'ParameterGrid.add_extra_lower_and_upper_bin': ['Grid.addExtra', 'Grid.PGObj.step'],
+    _P + 'ParameterGrid.copy': ['Grid.PGObj.step'],
+    _P + 'IrregularParameterGrid.__init__': ['Grid.mkIrr'],
+    _P + 'IrregularParameterGrid.grid': ['Grid.mkIrr', 'Grid.strictlyIncreasing', 'Grid.IGObj.step'],
+    _P + 'IrregularParameterGrid.add_extra_lower_and_upper_bin': ['Grid.irrAddExtra'],
+    _P + 'IrregularParameterGrid.copy': ['Grid.IGObj.step'],
+    _P + 'IrregularParameterGrid.round_to_nearest_grid_point': ['Grid.irrNearest', 'Grid.irrNearestArr', 'Grid.irrNearestP', 'Grid.irrMids'],
+    _P + 'IrregularParameterGrid.round_to_lower_grid_point': ['Grid.irrLowerC', 'Grid.irrLowerArr', 'Grid.irrLowerP'],
+    _P + 'IrregularParameterGrid.round_to_upper_grid_point': ['Grid.irrUpper', 'Grid.irrUpperArr', 'Grid.irrUpperP'],
+    _P + 'ParameterGridSet.parameter_permutation_dict_list': ['Grid.gridProduct', 'Grid.permutationDicts'],
+    _P + 'ParameterGridSet.add_extra_lower_and_upper_bin': ['Grid.gridSetExtra', 'Grid.irrSetExtra'],
+    _P + 'make_linear_parameter_grid_1d': ['Grid.fromRangeArr'],
+    _I + 'NullGridManifoldInterpolationMethod.__call__': ['Grid.nullSpec', 'Grid.nullGridParams'],
+    _I + 'Linear1DGridManifoldInterpolationMethod.__call__': ['Grid.linCall', 'Grid.linCompute', 'Grid.linEval', 'Grid.linRun', 'Grid.linCallIrr',
+                                                               'Grid.linComputeIrr', 'Grid.linLine', 'Grid.linRunIrr'],
+    _I + 'Linear1DGridManifoldInterpolationMethod._is_cached': ['Grid.linCall', 'Grid.linCallIrr'],
+    _I + 'Linear1DGridManifoldInterpolationMethod._create_cache': ['Grid.LinCache'],
+    _I + 'Parabola1DGridManifoldInterpolationMethod.__call__': ['Grid.parCall', 'Grid.parCompute', 'Grid.parEval', 'Grid.parRun', 'Grid.parGradP'],
+    _I + 'Parabola1DGridManifoldInterpolationMethod._is_cached': ['Grid.parCall', 'Grid.bcastEq'],
+    _I + 'Parabola1DGridManifoldInterpolationMethod._create_cache': ['Grid.ParCache'],
+    'skyllh/core/py.py::get_number_of_float_decimals': ['Grid.decimalsOf'],
+    'skyllh/core/py.py::make_dict_hash': ['Grid.keyEq'],
+    'skyllh/core/pdf.py::PDFSet.add_pdf': ['Grid.pdfAdd', 'Grid.pdfAddAll'],
+    'skyllh/core/pdf.py::PDFSet.get_pdf': ['Grid.pdfGet'],
+    'skyllh/core/trialdata.py::TrialDataManager.broadcast_sources_array_to_values_array': ['Grid.broadcast'],
+}
 
 FD_DEFAULT, MAXDEC_DEFAULT = 9, 16
 SLACK = Fraction(6, 10 ** 10)         # slack of the rounding in units of delta: the proved 5e-10 (c15_lower_le_value,
@@ -66,13 +106,18 @@ def generated(ctx):
         maxdec = MAXDEC_DEFAULT
         ctx.note('C15: maximal decimals not found in ParameterGrid.__init__; using recorded value %d' % maxdec)
         ctx.proof['generated_fallbacks'].append('maxDecimals')
+    r7, r7notes = R7.extract(REPO)
+    for name, why in r7notes:
+        ctx.note('C15: %s not found in the current source (%s); using the recorded value' % (name, why))
+        ctx.proof['generated_fallbacks'].append(name)
     return ('-- generated by harness/props/c15.py from the current skyllh source; do not edit\n'
             'namespace Gen.C15\n'
             '/-- `np.around(floatD, 9)` in `ParameterGrid._calc_floatD_and_intD` -/\n'
             'def floatDDecimals : Nat := %d\n'
             '/-- `if decimals > 16: raise ValueError` in `ParameterGrid.__init__` -/\n'
-            'def maxDecimals : Nat := %d\n'
-            'end Gen.C15\n' % (fd, maxdec))
+            'def maxDecimals : Nat := %d\n' % (fd, maxdec)
+            + R7.lean_consts(r7) +
+            'end Gen.C15\n')
 
 
 # ------------------------------------------------------------------------------------------
@@ -1257,6 +1302,8 @@ def _close(a, b, tol):
 def _corr_lines(case):
     """-> (request lines, implementation result)"""
     k = case['kind']
+    if k in R7.KINDS:
+        return R7.lines(case)
     if k == 'grid':
         spec = case['grid']
         arr = np.array(spec['arr'], dtype=np.float64)
@@ -1332,9 +1379,11 @@ def _corr_lines(case):
         a = np.arange(case['start'], case['stop'], case['step'])
         return ['arange %s %s %s' % (f2b(case['start']), f2b(case['stop']), f2b(case['step']))], flist(a)
     if k == 'fromrange':
-        from skyllh.core.parameters import ParameterGrid
+        from skyllh.core.parameters import ParameterGrid, make_linear_parameter_grid_1d
         try:
-            g = ParameterGrid.from_range('p', case['start'], case['stop'], case['delta'])
+            # the two makers of a grid from a range are generated alternatives of the same request
+            g = (make_linear_parameter_grid_1d('p', case['start'], case['stop'], case['delta']) if case.get('maker') == 'linear1d'
+                 else ParameterGrid.from_range('p', case['start'], case['stop'], case['delta']))
         except (ValueError, IndexError):
             return ['fromrange %s %s %s 0' % (f2b(case['start']), f2b(case['stop']), f2b(case['delta']))], 'ERR'
         return ['fromrange %s %s %s %d' % (f2b(case['start']), f2b(case['stop']), f2b(case['delta']), g.decimals)], \
@@ -1582,6 +1631,8 @@ def _corr_compare(case, impl, model, diag):
     k = case['kind']
     if isinstance(impl, str) and impl.startswith('EXC:'):
         return '%s: implementation raised %s' % (k, impl)
+    if k in R7.KINDS:
+        return R7.compare(case, impl, model, diag)
     if k == 'grid':
         t = model[0].split(' ')
         lb, dl, grid = b2f(t[0]), b2f(t[1]), parse_flist(t[2])
@@ -1806,6 +1857,8 @@ def _safe(fn):
 ORACLES = {'round': _safe(o_round), 'irr': _safe(o_irr), 'ctor': _safe(o_ctor), 'fromrange': _safe(o_fromrange), 'views': _safe(o_views),
            'setter': _safe(o_setter), 'objhist': _safe(o_objhist), 'pdfset': _safe(o_pdfset), 'keyeq': _safe(o_keyeq), 'interp': _safe(o_interp), 'history': _safe(o_history),
            'broadcast': _safe(o_broadcast), 'corr': o_corr}
+ORACLES.update({name: _safe(fn) for name, fn in R7.ORACLES.items()})
+ALL_BRANCHES.update(R7.BRANCHES)
 
 
 _POLY = {'kind': 'poly', 'c': [0.75, -1.25, 0.5]}
@@ -1815,6 +1868,8 @@ def _oracles_for(case):
     """the property oracles (name, case) looking at the same behaviour as a correspondence case, incl. variants of the
     input (each call of a history as a fresh call, a polynomial instead of a smooth manifold function)"""
     k = case['kind']
+    if k in R7.KINDS:
+        return R7.oracles_for(case)
     if k in ('grid', 'rounds'):
         g = case['grid']
         vs = case.get('vs') or [g['arr'][0], g['arr'][-1]]
@@ -2264,7 +2319,9 @@ def run(ctx):
         m = rng.choice([0, 1, 2, 3, 10, 11, 30, 61, rng.randint(1, 199)])
         stop = round(start + m * delta, 9)
         c = {'start': start, 'stop': stop, 'delta': delta, 'm': m}
-        corr_cases.append(dict(c, kind='fromrange'))
+        mk_ = rng.choice(['from_range', 'linear1d'])
+        ctx.count('form:range-maker=%s' % mk_)
+        corr_cases.append(dict(c, kind='fromrange', maker=mk_))
         oracle_cases.append(('fromrange', c))
         corr_cases.append({'kind': 'arange', 'start': start, 'stop': rng.choice([stop, stop + delta, stop + delta / 2, start, start - delta]), 'step': delta})
         ctx.count('from_range:m=%s' % (m if m < 2 else '2+'))
@@ -2409,6 +2466,11 @@ def run(ctx):
             for a, dl in grids:
                 sps.append({'arr': a, 'delta': dl, 'decimals': None, 'extra': rng.choice([0, 1])})
             oracle_cases.append(('pdfset', {'grids': sps, 'values': [[c[j] for c in cols] for j in range(nsrc)]}))
+
+    # ---- round 7: linear method over irregular grids, grid sets, the parametrised roundings / gradient
+    c7, o7 = R7.gen(ctx, rng)
+    corr_cases += c7
+    oracle_cases += o7
 
     # ---- correspondence, one driver batch
     reqs, spans, impls = [], [], []
